@@ -166,6 +166,18 @@ def generate(seed, tier="quick"):
             {"t": "stmt", "text": "_oz = [1, {'k': 2}]"},
             {"t": "stmt", "text": "rec('idz', lambda: snapshot_alias(_oz) is _oz)"},
             {"t": "stmt", "text": "rec('idz2', lambda: len(snapshot_alias([1, 2])) == 2)"}]})
+    orng = sub(seed, "outside")
+    outside = orng.random() < 0.3
+    if outside:
+        # a comparison that is legitimately False and not asserted, evaluated while the module is imported (outside any test); the first test
+        # of the module holds: it passes when disabled, so it passes in the active session too, whatever was compared before it started
+        f = prog["files"][0]
+        f["sites"]["mo1"] = {"op": orng.choice(["eq", "le", "in"]), "place": "module", "arg": "[5]" if False else "5", "prev": ["int", 5]}
+        if f["sites"]["mo1"]["op"] == "in":
+            f["sites"]["mo1"].update(arg="[5]", prev=["list", [["int", 5]]])
+        f.setdefault("module_events", []).append({"t": "cmp", "eid": "emo1", "site": "mo1", "vals": [["int", 7]], "style": "rec"})
+        f["sites"]["vi1"] = {"op": "eq", "place": "direct", "arg": "1", "prev": ["int", 1]}
+        f["tests"].insert(0, {"name": "test_00_first_after_import", "events": [{"t": "cmp", "eid": "evi1", "site": "vi1", "vals": [["int", 1]], "style": "assert"}]})
     route = sub(seed, "route").choice(ROUTES)
     wrng = sub(seed, "twin")
     if wrng.random() < 0.12 and len(prog["files"]) == 1:
@@ -178,7 +190,7 @@ def generate(seed, tier="quick"):
             f["sites"]["kq" + suffix] = {"op": "eq", "place": "func", "arg": "[K, 1]", "prev": ["list", [["int", kv], ["int", 1]]], "name": "kq", "wrapped": True}
             f["tests"].append({"name": "test_kq", "events": [{"t": "cmp", "eid": "ekq" + suffix, "site": "kq" + suffix, "vals": [["list", [["int", kv], ["int", 1]]]], "style": "rec"},
                                                              {"t": "cmp", "eid": "ekr" + suffix, "site": "kq" + suffix, "vals": [["list", [["int", 9]]]], "style": "rec"}]})
-    return {"program": prog, "route": route, "ci_var": sub(seed, "ci").choice(drivers.CI_VARS), "plugin_active": sub(seed, "pa").random() < 0.3}
+    return {"program": prog, "route": route, "ci_var": sub(seed, "ci").choice(drivers.CI_VARS), "plugin_active": sub(seed, "pa").random() < (0.7 if outside else 0.3)}
 
 
 def execute(case, ctx):
